@@ -32,13 +32,13 @@ struct Case {
 fn weights() -> OpWeights {
     OpWeights {
         msg: 12,
-        run: 5,
-        run_linked: 3,
+        run: 4,
+        run_linked: 2,
         cursor: 3,
-        side_effects: 3,
-        checkpoint: 4,
-        auto: 4,
-        branch: 3,
+        side_effects: 2,
+        checkpoint: 7,
+        auto: 7,
+        branch: 4,
         restart: 1,
         ensure: 1,
     }
@@ -46,13 +46,13 @@ fn weights() -> OpWeights {
 
 fn case_strategy() -> BoxedStrategy<Case> {
     (
-        ops_strategy(weights(), 14),
+        ops_strategy(weights(), 11),
         proptest::collection::vec(
             rv::store::op_strategy(OpWeights { branch: 1, restart: 0, ensure: 0, auto: 2, ..weights() }),
             2..6,
         ),
         params_strategy(),
-        1u8..4,
+        2u8..6,
     )
         .prop_map(|(ops, cont, params, surface_stride)| Case { ops, cont, params, surface_stride })
         .boxed()
@@ -201,7 +201,7 @@ fn run(case: &Case, _known: &KnownFindings) -> CaseReport {
                 return;
             }
             let mut r = rec.lock().unwrap();
-            if !r.enabled || r.snaps.len() >= 600 {
+            if !r.enabled || r.snaps.len() >= 400 {
                 return;
             }
             let n = r.snaps.len();
@@ -363,8 +363,8 @@ fn main() {
     check.assume("crash points are the hook-named boundaries: event log (before write, after body, after flush), every sidecar/index cache effect, thread index tmp/rename, artifact tmp/rename; session snapshots and task logs are exercised by C03/C17 histories, not here");
     check.assume("acknowledged = the call returned Ok with an id before the crashing operation started");
     let known = KnownFindings::load("C05");
-    let rule = "history = generated continuity operations (incl. frames > 8 KiB, manual and auto compaction, branch, handoff); EVERY hook-named write boundary of EVERY operation is a crash point (enumerated inside the case, up to 600); each image is reopened, replay-validated, checked for acknowledged appends, artifact resolution and the C04 read surface, then continued with generated appends and re-checked. non-trivial = at least one crash point strictly inside an operation; distinct by case hash";
-    let n = check.cases(64, 1500);
+    let rule = "history = generated continuity operations (incl. frames > 8 KiB, manual and auto compaction, branch, handoff); EVERY hook-named write boundary of EVERY operation is a crash point (enumerated inside the case, up to 400); each image is reopened, replay-validated, checked for acknowledged appends, artifact resolution and the C04 read surface, then continued with generated appends and re-checked. non-trivial = at least one crash point strictly inside an operation; distinct by case hash";
+    let n = check.cases(400, 8000);
     check.group(
         "crash_points",
         rule,
